@@ -907,8 +907,9 @@ class ArgumentParser(ParserDeprecations, ActionsContainer, ArgumentLinking, argp
         check_overwrite(path_fc)
 
         if not multifile:
+            cfg_str = self.dump(cfg, **dump_kwargs)  # type: ignore[arg-type]
             with open(path_fc.absolute, "w") as f:
-                f.write(self.dump(cfg, **dump_kwargs))  # type: ignore[arg-type]
+                f.write(cfg_str)
 
         else:
             cfg = cfg.clone()
@@ -940,15 +941,17 @@ class ArgumentParser(ParserDeprecations, ActionsContainer, ArgumentLinking, argp
                     elif isinstance(val, Path) and key in self.save_path_content and "r" in val.mode:
                         val_path = Path(os.path.basename(val.absolute), mode="fc")
                         check_overwrite(val_path)
+                        val_content = val.get_content()
                         with open(val_path.absolute, "w") as f:
-                            f.write(val.get_content())
+                            f.write(val_content)
                         cfg[key] = type(val)(str(val_path))
 
             with change_to_path_dir(path_fc), parser_context(parent_parser=self):
                 save_paths(cfg)
             dump_kwargs["skip_validation"] = True
+            cfg_str = self.dump(cfg, **dump_kwargs)  # type: ignore[arg-type]
             with open(path_fc.absolute, "w") as f:
-                f.write(self.dump(cfg, **dump_kwargs))  # type: ignore[arg-type]
+                f.write(cfg_str)
 
     ## Methods related to defaults ##
 
